@@ -16,7 +16,8 @@ EXTENDS Integers, Sequences, FiniteSets, TLC
 
 CONSTANTS Tasks,     \* 1..N
           Progs,     \* set of admissible program assignments [Tasks -> Seq(step)]
-          MaxT       \* horizon: awaits beyond MaxT never complete (run ends)
+          MaxT,      \* horizon: awaits beyond MaxT never complete (run ends)
+          Tol        \* interval: a tick observed at most Tol ticks late does not count as missed (5 ms in des)
 
 INF == MaxT + 1000
 
@@ -56,7 +57,7 @@ Block(t, kind, d1, d2) == /\ st' = [st EXCEPT ![t] = kind] /\ dl' = [dl EXCEPT !
 
 (* interval: next deadline after a tick that was due at `due` and is observed at `at` *)
 NextTick(due, at, per, mode) ==
-  IF at <= due THEN due + per
+  IF at <= due + Tol THEN due + per
   ELSE CASE mode = "burst" -> due + per
          [] mode = "delay" -> at + per
          [] OTHER -> at + per - ((at - due) % per)
